@@ -5,13 +5,13 @@ V = os.path.dirname(os.path.dirname(os.path.abspath(__file__)))
 
 CLAIMED = {
   # id: (technique, level text, level note, design ref)
-  "C02": ("deterministic simulation (dsim): seeded schedules over every atomic step of RecorderOnceCell::set/try_load, racing installers and loaders",
-          "Seeded search over interleavings of 2-4 installers and 0-3 loaders on a fresh once-cell per run, each shimmed atomic operation a scheduling point; oracle: at most one Ok, losers get their own recorder back undropped, loads stable and never before install. Evidence, not proof.",
-          "Sequentially consistent interleavings only (weak-memory publication bugs are outside this engine); recorder doubles are stubs; process-wide GLOBAL_RECORDER path is exercised by the C01 process-per-run scenario.",
+  "C02": ("deterministic simulation (dsim): seeded schedules over every atomic step of RecorderOnceCell::set/try_load with racing installers and loaders, at cell level and through set_global_recorder + the emission macros",
+          "Seeded search over interleavings of 2-4 installers and 0-3 loaders on a fresh once-cell per run, each shimmed atomic operation a scheduling point; oracle: at most one Ok, losers get their own recorder back undropped, loads stable and never before install. A second, facade-level scenario races 1-3 real set_global_recorder calls against 1-3 threads emitting through counter!/histogram!/describe_gauge! (with_recorder on every emission) on the process-wide cell, which a guarded hook returns to 'uninstalled' between runs: once any emission was dispatched to the installed recorder every later one is, to the same intact recorder; earlier ones reach nobody. A worker process killed by a signal while executing a run is reported as class 'crash'. Evidence, not proof.",
+          "Sequentially consistent interleavings only (weak-memory publication bugs are outside this engine); recorder doubles are stubs; one run stands for one process life of the global cell (reset hook).",
           "DESIGN.md 4/C02"),
   "C01": ("deterministic simulation (dsim): seeded programs of nested / unordered local-recorder scopes, leaked guards, panics and macro emissions on 1-3 simulated threads, checked against a reference scope interpreter",
-          "Seeded programs (closure scopes nested to depth 6, set_default_local_recorder guards dropped in any order or leaked, panics unwinding through scopes, a global recorder appearing at a random point, 23 call sites covering every macro arm) run on 1-3 threads interleaved at operation granularity; after every emission exactly one recorder call must have happened, on the recorder the specification interpreter names (innermost live scope of that thread, else global, else nobody), with the name, labels, level, target, module path, unit and description the call site spells. A second interpreter models the save-and-restore implementation so that the two known unsound histories (non-LIFO guard drop, mem::forget) are attributed by structure and everything else is a new violation.",
-          "Recorder doubles are kept alive beyond their logical scope (a dispatch to an ended scope is observed, not undefined behaviour), so real use-after-free is out of reach; the global recorder is a router installed once per worker process (racing installs are C02's scenario).",
+          "Seeded programs (closure scopes nested to depth 6, set_default_local_recorder guards dropped in any order or leaked, panics unwinding through scopes, a real set_global_recorder call at a random point of any thread's program (possibly racing another), optionally two different recorders at one address, 23 call sites covering every macro arm) run on 1-3 threads interleaved at operation granularity; after every emission exactly one recorder call must have happened, on the recorder the specification interpreter names (innermost live scope of that thread, else global, else nobody), with the name, labels, level, target, module path, unit and description the call site spells. A second interpreter models the save-and-restore implementation so that the two known unsound histories (non-LIFO guard drop, mem::forget) are attributed by structure and everything else is a new violation.",
+          "Recorder doubles are kept alive beyond their logical scope (a dispatch to an ended scope is observed, not undefined behaviour), so real use-after-free is out of reach; the process-wide global cell is returned to 'uninstalled' between runs by a guarded hook (one run = one process life).",
           "DESIGN.md 4/C01"),
   "C14": ("seeded interpretation under Miri (-Zmiri-many-seeds): seeded programs of construct/clone/convert/hand-over/drop over SharedString and Key labels on two threads, Miri as memory oracle",
           "Each execution is one seeded program (6-19 steps of construct from static/owned-with-any-capacity/Arc/std-Cow, clone, deref/compare/hash, into_owned, Key::into_parts, with_extra_labels, hand-over to another thread that checks, clones and drops, drop) under one Miri interpreter seed: a seeded scheduler pre-empting at basic-block granularity with weak-memory emulation, so one (program, seed) pair is one repeatable execution. The program checks content against a model and Arc strong counts after every step; Miri reports use-after-free, double free, layout-mismatched deallocation, leaks and data races. Runs the shipped token stream (guard off) through a shadow manifest.",
@@ -27,7 +27,7 @@ CLAIMED = {
           "DESIGN.md 4/C04"),
   "C20": ("deterministic simulation (dsim): seeded schedules over emitters racing into_inner / handle drop at Weak::upgrade, Arc::try_unwrap and strong-reference-drop granularity",
           "Seeded search over interleavings of 1-3 emitting threads (all six Recorder methods through the weak wrapper) with RecoveryHandle::into_inner or drop; oracle: zero calls in flight at the instant into_inner returns, nothing enters after finalisation, every emission completed before recovery reached the recorder, later ones are inert, drop count exactly 1. One deviation is recorded as a known finding (handle drop while a call is in flight).",
-          "Sequentially consistent interleavings only; std Arc/Weak are replaced under the guard by transparent shims that announce upgrade/try_unwrap/drop; install-fails path not covered here.",
+          "Sequentially consistent interleavings only; std Arc/Weak are replaced under the guard by transparent shims that announce upgrade/try_unwrap/drop. Profiles: stand-alone wrapper or real install() + with_recorder; metric handles dropped at once or retained to the end of the run; install() failing because a global recorder exists.",
           "DESIGN.md 4/C20"),
   "C03": ("deterministic simulation (dsim): seeded schedules over racing first get_hash()/clone() on lazily hashed shared keys, with seeded key generation for the relational laws",
           "Seeded search over interleavings of 2-4 threads calling get_hash, clone+get_hash, std Hash and ==/cmp on 3-5 shared keys built through every public constructor (incl. lazily hashed static keys), each atomic load/store of the memoised hash a scheduling point; at quiescence all pairs/triples are checked for the equivalence/total-order/hash-coherence laws, construction-path and permutation irrelevance. One genuine defect (Eq vs Ord for two same-named labels) was found and repaired.",
